@@ -34,7 +34,7 @@ def labels_may_write(c, comp, ref):
     return None
 
 
-TOUCH = {'sets', 'fd', 'fv', 'fs_len', 'fs_el'}
+TOUCH = {'sets', 'fd', 'fv', 'fs_len', 'fs_el', 'dd', 'dv', 'fld__next', 'rels'}
 
 
 def install(E):
@@ -56,7 +56,7 @@ def install(E):
     E.register(Contract(
         'CTL.modelcheck(any object)', 'ctl', [('kripke', 'kripke'), ('formula', 'F')], ret='set',
         requires=lambda c: [('kripke_wf', wfK(c.h0, c.kripke.t)), ('no_None_state', z3.Not(V(c.h0, c.kripke.t)[hp.NONE_H]))],
-        ensures=any_ens, touches={'sets', 'fd', 'fv'}, hints={'may_raise': ('TypeError',), 'path': 'modelcheck'},
+        ensures=any_ens, touches={'sets', 'fd', 'fv', 'dd', 'dv', 'fld__next', 'rels'}, hints={'may_raise': ('TypeError',), 'path': 'modelcheck'},
         owner='C07', assumed=True,
         note='ASSUMED at the call sites of the CTL* reduction: for ANY formula object CTL.modelcheck either raises TypeError (leaving '
              'everything as it was) or returns a new set of states and writes nothing that existed before. The body is proved '
